@@ -4,7 +4,7 @@
 import ast
 
 from ..facts import CONTEXT_FREE, LP_CLASS, fmt_target, walk
-from ..model import norm_stmt
+from ..model import canon_eq, norm_stmt
 from .common import facts, parent
 from . import derive
 from .kill import dep_locations, loc_of_target
@@ -79,9 +79,12 @@ def check_selectors(ctx, rule):
         for node in ast.walk(fn.node):
             if isinstance(node, ast.Subscript) and isinstance(node.value, ast.Name) and \
                     node.value.id in ("rewards", "contexts", "decisions") and isinstance(node.ctx, ast.Load):
-                sels.append((node, ast.unparse(expand(node.slice))))
+                sels.append((node, " ".join(ast.unparse(expand(node.slice)).split())))
         n += len(sels)
-        want = {"decisions == %s" % arm, "np.where(decisions == %s)" % arm}
+        m = canon_eq("decisions", arm)
+        # equivalent spellings of "the rows whose decision is this arm": the mask itself or its positions
+        want = {m, "np.where(%s)" % m, "np.where(%s)[0]" % m, "np.flatnonzero(%s)" % m, "np.nonzero(%s)" % m,
+                "np.nonzero(%s)[0]" % m, "(%s).nonzero()" % m, "(%s).nonzero()[0]" % m}
         for node, s in sels:
             ctx.check(s in want, rule, "%s selects %s rows with the arm's own mask" % (fn.qualname, node.value.id),
                       node, fn, "selector `%s` is not built from decisions == %s" % (s, arm))
